@@ -102,6 +102,8 @@ def main():
         pid = p["id"]
         if pid in CHECKS:
             d, tech, text, note = CHECKS[pid]
+            if pid not in ("C14", "C19"):
+                tech += "; thorough tier adds a coverage-guided native fuzzing run (go test -fuzz, rapid.MakeFuzz) of the same generator and oracle"
             checks.append({
                 "property_id": pid,
                 "quick_cmd": "./check %s --tier quick" % pid,
